@@ -48,7 +48,7 @@ func (l *simLogger) at(level, format string, args []any) {
 		}
 		l.f.mu.Unlock()
 	}
-	l.f.K.Yield("log:"+format, l.scope)
+	l.f.K.YieldT("log:"+format, l.scope, fmt.Sprintf("%016x", HashStr(safeSprintf(format, args))))
 }
 
 func safeSprintf(format string, args []any) (s string) {
